@@ -4,6 +4,7 @@ import PV.Base.B64
 import PV.Model.Pragma
 import PV.Model.Daemon
 import PV.Model.Stats
+import PV.Model.Tokens
 import PV.DriverRun
 /-! One-JSON-object-in / one-JSON-object-out driver over the executable models. -/
 namespace PV.Driver
@@ -75,6 +76,41 @@ def handleE (j : Json) : Except String Json := do
     let src ← natsOf (← j.getObjVal? "code")
     let cs := src.map Char.ofNat
     pure (Json.mkObj [("ok", jNats [PV.Stats.numLines cs, PV.Stats.numBytes cs])])
+  | "same-program" => do pure (Json.mkObj [("ok", ← PV.DriverRun.sameProgram j)])
+  | "fmtint" =>
+    -- {"n": int, "hashes": [ints]} -> text of utils.format_int
+    let n ← j.getObjValAs? Int "n"
+    let hs ← (← (← j.getObjVal? "hashes").getArr?).toList.mapM (fun x => x.getInt?)
+    pure (Json.mkObj [("ok", Json.str (String.ofList (PV.Digits.formatInt hs n)))])
+  | "parsenum" =>
+    let src ← natsOf (← j.getObjVal? "src")
+    pure (Json.mkObj [("ok", match PV.Digits.parseNum (src.map Char.ofNat) with | some n => Json.num (JsonNumber.fromInt n) | none => Json.null)])
+  | "token" =>
+    -- {"what": "hash"|"str"|"enum", "mode": "verbose"|"compact"|"numeric", "s": [code points], ("ty","m","v"), "hashes": [...]} -> spelled text
+    let what ← j.getObjValAs? String "what"
+    let modeS ← j.getObjValAs? String "mode"
+    let mode := if modeS == "verbose" then PV.Tokens.Mode.verbose else if modeS == "compact" then PV.Tokens.Mode.compact else PV.Tokens.Mode.numeric
+    let hs ← (← (← j.getObjVal? "hashes").getArr?).toList.mapM (fun x => x.getInt?)
+    let out ← match what with
+      | "hash" => do
+        let src ← natsOf (← j.getObjVal? "s")
+        pure (PV.Tokens.computeHash mode (src.map Char.ofNat))
+      | "str" => do
+        let src ← natsOf (← j.getObjVal? "s")
+        pure (PV.Tokens.computeString mode (src.map Char.ofNat))
+      | "enum" => do
+        let ty ← j.getObjValAs? String "ty"
+        let m ← j.getObjValAs? String "m"
+        let v ← j.getObjValAs? Int "v"
+        pure (PV.Tokens.formatEnum mode ty.toList m.toList v)
+      | w => throw s!"bad token kind {w}"
+    pure (Json.mkObj [("ok", Json.str (String.ofList (PV.Tokens.spell hs out)))])
+  | "denote" =>
+    -- {"src": [code points], "pos": enum class name or null} -> int or null
+    let src ← natsOf (← j.getObjVal? "src")
+    let pos := match j.getObjValAs? String "pos" with | .ok p => some p | .error _ => none
+    pure (Json.mkObj [("ok", match PV.Tokens.denote PV.Gen.enums pos (src.map Char.ofNat) with
+      | some n => Json.num (JsonNumber.fromInt n) | none => Json.null)])
   | "words" =>
     let src ← natsOf (← j.getObjVal? "src")
     let r := PV.PyStr.words (src.map Char.ofNat)
